@@ -155,6 +155,72 @@ S('silent-udp-checklen-reorder', ['C07'], W + 'udp.rs',
   """            if buffer_len < field_len || field_len < HEADER_LEN {""",
   """            if field_len < HEADER_LEN || buffer_len < field_len {""", 'reordered disjuncts')
 
+V('c08-tcp-urgent-after-fill', 'C08', W + 'tcp.rs',
+  """        packet.set_urgent_at(0);
+        packet.payload_mut()[..self.payload.len()].copy_from_slice(self.payload);
+
+        if checksum_caps.tcp.tx() {
+            packet.fill_checksum(src_addr, dst_addr)
+        } else {""",
+  """        packet.payload_mut()[..self.payload.len()].copy_from_slice(self.payload);
+
+        if checksum_caps.tcp.tx() {
+            packet.fill_checksum(src_addr, dst_addr);
+            packet.set_urgent_at(0);
+        } else {
+            packet.set_urgent_at(0);""", 'R08.1')
+V('c08-udp-no-zero-when-offloaded', 'C08', W + 'udp.rs',
+  """            packet.fill_checksum(src_addr, dst_addr)
+        } else {
+            // make sure we get a consistently zeroed checksum,
+            // since implementations might rely on it
+            packet.set_checksum(0);
+        }
+    }
+}""",
+  """            packet.fill_checksum(src_addr, dst_addr)
+        }
+    }
+}""", 'R08.1')
+V('c08-icmpv6-no-pseudo-header', 'C08', W + 'icmpv6.rs',
+  """            !checksum::combine(&[
+                checksum::pseudo_header_v6(
+                    src_addr,
+                    dst_addr,
+                    IpProtocol::Icmpv6,
+                    data.len() as u32,
+                ),
+                checksum::data(data),
+            ])
+        };
+        self.set_checksum(checksum)""",
+  """            let _ = (src_addr, dst_addr);
+            !checksum::combine(&[checksum::data(data)])
+        };
+        self.set_checksum(checksum)""", 'R08.1c')
+V('c08-tcp-parse-inverted', 'C08', W + 'tcp.rs',
+  """        if checksum_caps.tcp.rx() && !packet.verify_checksum(src_addr, dst_addr) {""",
+  """        if !checksum_caps.tcp.rx() && !packet.verify_checksum(src_addr, dst_addr) {""", 'R08.2')
+V('c08-ipv4-parse-no-check', 'C08', W + 'ipv4.rs',
+  """        if checksum_caps.ipv4.rx() && !packet.verify_checksum() {
+            return Err(Error);
+        }
+""",
+  """        let _ = checksum_caps;
+""", 'R08.2')
+V('c08-frag-no-refill', 'C08', 'src/iface/interface/ipv4.rs',
+  """            if caps.checksum.ipv4.tx() {
+                packet.fill_checksum();
+            }""",
+  """""", 'R08.1')
+V('c08-process-tcp-ignored-caps', 'C08', IT,
+  """            &dst_addr,
+            &self.caps.checksum
+        ));""",
+  """            &dst_addr,
+            &ChecksumCapabilities::ignored()
+        ));""", 'R08.3')
+
 S('silent-tcp-rename-local', ['C17'], T,
   """        let mut ack_of_fin = false;""",
   """        let mut ack_of_fin = false; let _unused_marker = 0u8;""", 'adds an unused local')
